@@ -726,7 +726,11 @@ Definition judge_common (ex : cmp_mode) (term : tag) (raw : list node) (parts : 
 Definition finish (c : common) (agree_extra prop_extra sem : bool) : verdict :=
   let agree := cm_agree c && agree_extra in
   let legal := cm_struct c && cm_reorder_ok c in
-  V agree (legal && sem && prop_extra) (cm_class c && agree && legal) false.
+  (* known: the chain is in the reorder class and every pass output is a legal rewrite.  (It used
+     to require `agree` as well; check.py now reports a disagreement inside a known class by
+     itself, and tying the class to `agree` turned any harmless deviation from the model - e.g. a
+     different partition-sizing heuristic - into unexcused property failures of the open finding.) *)
+  V agree (legal && sem && prop_extra) (cm_class c && legal) false.
 
 (* ------------------------------------------------------------------ synthetic chains *)
 Definition dec_tagname (j : J) : option tag :=
